@@ -116,7 +116,6 @@ static bool contains(const Bytes &hay, const Bytes &needle)
 //   ctl   answers to requests other than ping/data, by DNS id (exact payload)
 //   acc   every ping/data query that was refused (BADIP)
 //   enc   the downstream encoding letters seen
-//   maxf  the largest downstream fragment seen
 //   raw   raw-mode frames received
 // plus, compared separately, the reassembled downstream packets and the server's tun writes.
 static void pump(Exec &X)
@@ -380,7 +379,7 @@ static CaseResult run_case(Tape &t)
 			if (!onlyx.empty() || !onlyy.empty())
 				r.fail("C04:spoof-changed-session", fmt("session %zu observed '%.70s' only with the spoofed datagrams and '%.70s' only without them", i, onlyx.empty() ? "-" : onlyx[0].c_str(), onlyy.empty() ? "-" : onlyy[0].c_str()) + "\n" + r.render);
 			if (r.ok && A.enc[i] != B.enc[i]) r.fail("C04:spoof-changed-encoding", fmt("the downstream encoding of session %zu differs with and without the spoofed datagrams", i) + "\n" + r.render);
-			if (r.ok && A.maxf[i] && B.maxf[i] && A.maxf[i] != B.maxf[i] && aliveA[i] && B.ss[i].state == 1 && sim::W.now - B.ss[i].t_last < 50000000ull) r.fail("C04:spoof-changed-fragsize", fmt("the largest downstream fragment of session %zu is %zu bytes with the spoofed datagrams and %zu without", i, A.maxf[i], B.maxf[i]) + "\n" + r.render);
+			// (the largest fragment seen is not compared: it depends on where a fragment-size request falls inside a transfer)
 			if (r.ok) {
 				// sessions that are alive at the end of both executions have fetched everything (drain); a session that expired
 				// on the way may have got more or less of its last transfer depending on wake-up timing: one list must then
